@@ -444,6 +444,38 @@ def r6_edit_effect(r, facts):
                     elif plain in txt:
                         seen += 1
                         r.require(not adds, 'effect:remove/%s-bound' % which, 'the %s of a range with an %s bound i is not i itself: %s' % (which, plain[1:].lower(), txt[:100]), f.where(d[0]))
+        # .. and the tail is moved down: after the new length is stored every path to the return passes the copy, except over an
+        # edge that says there is nothing to move (new_len == 0, or start >= new_len: the removed range was the end)
+        ebl = ExprBuilder(f, multi='leaf')
+        copies = [c_[0] for c_ in copy_sites(f)] + [c_[0] for c_ in _copy_within_sites(f)]
+        st_locs = [loc for f_, loc, nl in per.get(RB + '::remove', [])]
+        nothing = []
+        is_nl = lambda e: is_new_len_remove(e)
+        is_st = lambda e: is_named('start')(e)
+        for b, blk in enumerate(f.blocks):
+            t = blk['term']
+            if blk['cleanup'] or t['k'] != 'switch':
+                continue
+            e = ebl.operand(t['discr'])
+            vals = {int(v): tg for v, tg in t['targets']}
+            t_true, t_false = vals.get(1, t['otherwise']), vals.get(0)
+            if e[0] != 'bin':
+                continue
+            a_, b_ = strip(e[2]), strip(e[3])
+            zero = lambda x: x[0] == 'const' and x[1] == 0
+            if e[1] == 'Eq' and ((is_nl(a_) and zero(b_)) or (is_nl(b_) and zero(a_))):
+                nothing.append(Loc(t_true, 0))
+            elif e[1] == 'Ne' and ((is_nl(a_) and zero(b_)) or (is_nl(b_) and zero(a_))) and t_false is not None:
+                nothing.append(Loc(t_false, 0))
+            elif (e[1] == 'Ge' and is_st(a_) and is_nl(b_)) or (e[1] == 'Le' and is_nl(a_) and is_st(b_)):
+                nothing.append(Loc(t_true, 0))
+            elif ((e[1] == 'Lt' and is_st(a_) and is_nl(b_)) or (e[1] == 'Gt' and is_nl(a_) and is_st(b_))) and t_false is not None:
+                nothing.append(Loc(t_false, 0))
+        if r.require(bool(copies) and bool(st_locs), 'effect:remove/shift', 'the copy that moves the tail down / the store of the new length was not found in remove', f.where()):
+            starts2 = [Loc(l[0], l[1] + 1) for l in st_locs]
+            hit = f.forward_paths_hit(starts2, f.returns(), blockers=copies + nothing)
+            r.inst('remove: tail moved down on every path that has something to move (%d "nothing to move" exit(s))' % len(nothing), f.where(copies[0]))
+            r.require(hit is None, 'effect:remove/shift', 'a path through remove returns with the new length stored but the bytes behind the removed range not moved down (outside the exits `new_len == 0` / `start >= new_len`): the buffer ends in stale bytes and loses its tail', f.where(hit[0]) if hit else '')
         r.require(seen >= 4, 'effect:remove/bounds', 'the translation of the range bounds into [start, end) was not found in remove (unrecognised form; %d of 4 cases seen)' % seen, f.where())
     r.floor(5)
 
